@@ -44,6 +44,12 @@ func messageDigest(val, hash string) string {
 }
 
 func toRealType(val string) any {
+	// a value of several lines is a string as it is. Embedded into a yaml document, its further lines
+	// would be folded, taken for comments, or let the parsing fail and the value be dropped silently.
+	if strings.Contains(strings.TrimSpace(val), "\n") {
+		return val
+	}
+
 	var parsed map[string]any
 
 	// here we're using the ability of the yaml parser to "guess" the type and convert the given string to it.
